@@ -61,7 +61,7 @@ REQUIRED = ['kind:gauss', 'kind:lognorm', 'kind:trunc', 'kind:pooled', 'kind:het
             'bare', 'all_pooled', 'all_hetero', 'cov_pooled', 'sigma:free', 'sigma:fixed', 'sigma:zero',
             'noise:log', 'noise:additive', 'cov:1d', 'cov:2d', 'times:unsorted', 'filter:composed', 'filter:gmix',
             'filter:lognormal', 'prior_rejected', 'bad_scale', 'special_not_last', 'free_sigma+special',
-            'n_samples=2', 'offset_tested', 'nested', 'late_n_ids', 'cov_hetero']
+            'n_samples=2', 'offset_tested', 'nested', 'late_n_ids', 'cov_hetero', 'n_samples>=10']
 
 PAR_NAMES = ['alpha', 'beta', 'gamma', 'delta']
 OUT_NAMES = ['conc', 'effect', 'marker']
@@ -323,8 +323,12 @@ def _spec(draw):
     nks = sorted(set(p['nk'] for p in parts if p['kind'] == 'gmix'))
     if nks == []:
         n_s = draw(st.sampled_from([2, 2, 3, 3, 4, 5, 6]))
+        if n_par * n_out * n_times <= 12 and gen.chance(draw, 0.12):
+            n_s = draw(st.sampled_from([10, 11, 12]))        # two-digit labels of the simulated individuals
     elif nks == [2]:
         n_s = draw(st.sampled_from([4, 6]))
+        if n_par * n_out * n_times <= 12 and gen.chance(draw, 0.12):
+            n_s = draw(st.sampled_from([10, 12]))
     else:
         n_s = 6
     lognormal = any(p['kind'] in rf.LOGNORMAL for p in parts)
@@ -527,6 +531,8 @@ def classify(spec):
     for k in ('cov', 'comp'):
         if popgen.has(pop, k):
             labs.add(k)
+    if spec['n_samples'] >= 10:
+        labs.add('n_samples>=10')
     if pop['kind'] != 'comp':
         labs.add('bare')
     if pop['kind'] == 'comp' and any(p['kind'] == 'comp' for p in pop['parts']):
